@@ -24,16 +24,16 @@ Section SlabFeature.
   | STMass (m : @mass_model F).                                                                     (* slab only: mass conserving *)
 
   (** the 500-term series of the slab plate model *)
-  Fixpoint mckenzie_sum (n : nat) (i : nat) (Rn x_scaled z_scaled acc : F) : F :=
+  Fixpoint mckenzie_sum (n : nat) (i : Z) (Rn x_scaled z_scaled acc : F) : F :=
     match n with
     | O => acc
     | S n' =>
-        let fi := fofZ (Z.of_nat i) in
-        let sgn := if Nat.even i then f1 else - f1 in
+        let fi := fofZ i in
+        let sgn := if Z.even i then f1 else - f1 in
         let A := sgn / (fi * fpi) in
-        let B := fexp ((Rn - fpow ((Rn * Rn) + ((fofZ (Z.of_nat (i * i)) * fpi) * fpi)) fhalf) * x_scaled) in
+        let B := fexp ((Rn - fpow ((Rn * Rn) + ((fofZ (i * i)%Z * fpi) * fpi)) fhalf) * x_scaled) in
         let C := fsin ((fi * fpi) * z_scaled) in
-        mckenzie_sum n' (S i) Rn x_scaled z_scaled (acc + ((A * B) * C))
+        mckenzie_sum n' (i + 1)%Z Rn x_scaled z_scaled (acc + ((A * B) * C))
     end.
 
   Inductive scomp :=
@@ -74,7 +74,7 @@ Section SlabFeature.
           let z_scaled := f1 - (if fabs d <? two_eps then two_eps else d / th) in
           let x_scaled := if fabs (pd_along pd) <? two_eps then two_eps else pd_along pd / th in
           let temp := if adiab then fexp (((alpha * q_g q) * q_depth q) / cp) else f1 in
-          let sum := mckenzie_sum 500 1 Rn x_scaled z_scaled f0 in
+          let sum := mckenzie_sum 500 1%Z Rn x_scaled z_scaled f0 in
           apply_op o old (temp * (Tp + ((f2 * (Tp - fdec 27315 (-2))) * sum)))
         else old
     | STMass mm => mass_temperature sph (q_g q) (q_depth q) mm pd total old
